@@ -200,7 +200,8 @@ def url_tables(route, fks, args, kw):
     calls are made"""
     env, fenv = [], []
     ai = 0
-    for pname, fk, f_in, f_out in zip(route.params, fks, route.filters, route.filters_out):
+    runs = route.pattern_out.split('\r')          # literal text after the i-th wildcard = runs[i + 1]
+    for wi, (pname, fk, f_in, f_out) in enumerate(zip(route.params, fks, route.filters, route.filters_out)):
         if pname.startswith('anon-'):
             if ai >= len(args):
                 break
@@ -226,7 +227,7 @@ def url_tables(route, fks, args, kw):
             if not isinstance(prt, str):
                 break
             if not fk.startswith('int('):
-                env.append(env_entry(fk, f_in, prt))
+                env.append(env_entry(fk, f_in, prt + (runs[wi + 1] if wi + 1 < len(runs) else '')))
     return env, fenv
 
 
@@ -529,33 +530,44 @@ class Oracle:
                 f'changes what a neighbouring filter matches; resolving the built URL gives {got}: {ctx}')
 
     def classify_assert(self, vals, texts, ctx):
+        """which wildcard made url() raise AssertionError, and why.  The check is re-done here in
+        both forms it has had (value alone, non-empty match; value in front of the following
+        literal, consumed exactly), the first wildcard failing one of them is the site."""
         route, kinds = self.route, self.kinds
+        site = {}
         for i, v in enumerate(vals):
             f_in = route.filters[i]
             if not f_in:
                 continue
             try:
                 prt = self.fmt(i, v)
-                ok = f_in(prt)[1]
+                alone = bool(f_in(prt)[1])
+                val, pos, _ = f_in(prt + self.runs[i + 1])
+                placed = val is not None and pos == len(prt)
             except Exception:
                 break
-            if ok:
-                continue
-            nxt = shape_after(self.ast, i)
-            if texts is not None and texts[i] == '':
-                return ('C19:url:empty-match-filter',
-                        f'wildcard {i} ({kinds[i]}) matched the empty text; url() asserts a non-empty match: {ctx}')
-            if kinds[i] == 'path' and nxt == 'lit':
-                return ('C19:url:path-filter-with-suffix',
-                        f'path wildcard {i} followed by a literal: url() checks the value without the literal its '
-                        f'look-ahead needs and raises AssertionError: {ctx}')
-            if isinstance(v, float) and math.isinf(v):
-                return ('C19:url:float-overflow-inf',
-                        f'float wildcard {i} matched a text beyond the double range (value {v!r}); its formatted '
-                        f'text {prt!r} fails the sanity check: {ctx}')
-            return (f'C19:url:sanity-check-rejects-{kinds[i]}-before-{nxt}',
-                    f'wildcard {i} ({kinds[i]}): url() raised AssertionError on the formatted value {prt!r}: {ctx}')
-        return ('C19:url:assertion-unexplained', f'url() raised AssertionError: {ctx}')
+            if not alone:
+                site.setdefault('alone', (i, prt))
+            if not placed:
+                site.setdefault('placed', (i, prt))
+        if not site:
+            return ('C19:url:assertion-unexplained', f'url() raised AssertionError: {ctx}')
+        i, prt = site.get('alone') or site['placed']
+        v = vals[i]
+        nxt = shape_after(self.ast, i)
+        if isinstance(v, float) and math.isinf(v):
+            return ('C19:url:float-overflow-inf',
+                    f'float wildcard {i} matched a text beyond the double range (value {v!r}); its formatted '
+                    f'text {prt!r} fails the sanity check of url(): {ctx}')
+        if 'alone' in site and texts is not None and texts[i] == '':
+            return ('C19:url:empty-match-filter',
+                    f'wildcard {i} ({kinds[i]}) matched the empty text; url() asserts a non-empty match: {ctx}')
+        if 'alone' in site and kinds[i] == 'path' and nxt == 'lit':
+            return ('C19:url:path-filter-with-suffix',
+                    f'path wildcard {i} followed by a literal: url() checks the value without the literal its '
+                    f'look-ahead needs and raises AssertionError: {ctx}')
+        return (f'C19:url:sanity-check-rejects-{kinds[i]}-before-{nxt}',
+                f'wildcard {i} ({kinds[i]}): url() raised AssertionError on the formatted value {prt!r}: {ctx}')
 
 
 # ---------------------------------------------------------------------------------------------
